@@ -336,6 +336,17 @@ theorem C20_fit_honest {α : Type} [LE α]
     · have : x.length = (p0.map (·.1)).length := by simpa using h3
       simp [List.map_fst_zip, this]
 
+/-- BOUNDS FOLLOW p0: the i-th box handed to the optimiser belongs to the i-th name of `p0` — the caller's box
+for that name if there is one, the generated default box otherwise — independently of the order in which the
+caller listed the bounds. -/
+theorem C20_bounds_follow_p0 (bounds : List (String × (Rat × Rat))) (names : List String) :
+    (fillBounds Gen.defaultBox bounds names).length = names.length ∧
+    ∀ (i : Nat) (h : i < names.length),
+      (fillBounds Gen.defaultBox bounds names)[i]? = some ((bounds.lookup names[i]).getD Gen.defaultBox) := by
+  refine ⟨by simp [fillBounds], ?_⟩
+  intro i h
+  simp [fillBounds, h]
+
 /-- a failed minimisation is reported as a failure, never as a fit -/
 theorem C20_fit_failure_propagates {α : Type}
     (minimize : (List α → α) → List α → Option (List α × α))
